@@ -4,7 +4,9 @@
 
    The trace (ndjson, path in env TRACE):
      {"e":"prog","id":p,"h":h,"desc":{nodes,loops,nsrc,nsink,ord}}   new instance of program p, history h
-     {"e":"step","mode":"tick"|"avail","inputs":[[..]..],"tb":t0,"ta":t1,"ticks":[[[sink1..],[sink2..]],..]}
+     {"e":"step","mode":"tick"|"avail","inputs":[[..]..],"tb":t0,"ta":t1,"nticks":n,"ticks":[[[sink1..],[sink2..]],..]}
+        (tb/ta = current_tick() before/after the call, nticks = ticks executed, counted at the
+         runtime's tick_swapped yield point, ticks = outputs grouped by the tick they occurred in)
      {"e":"panic","msg":..}
      {"e":"eof"}
    For every step the model executes the same call on the same inputs; each sink's per-tick
@@ -38,7 +40,7 @@ StepBroken(ev, mouts, mtick0) ==
         ncmp == Min2(nreal, nmod)
         bad == {<<i, k>> \in (1..ncmp) \X (1..prog.nsink) : ~SameOut(k, mouts[i][k], ev.ticks[i][k])}
     IN (IF ev.tb # mtick0 THEN {"tick-counter-before"} ELSE {})
-       \cup (IF ev.ta - ev.tb # nreal THEN {"tick-counter-not-plus-one-per-tick"} ELSE {})
+       \cup (IF ev.ta - ev.tb # ev.nticks THEN {"tick-counter-not-plus-one-per-tick"} ELSE {})
        \cup (IF nreal # nmod THEN {"ticks-executed"} ELSE {})
        \cup (IF bad # {} THEN {"outputs"} ELSE {})
        \* calibration steps carry the outputs asserted by the repository's own tests: the MODEL
